@@ -63,7 +63,8 @@ class World:
     def new_sandbox(self, prefix='exactly-') -> str:
         sim = kernel.cur()
         self._n += 1
-        if sim.resolver_fault and sim.resolver_fault.get('nth', 1) == self._n:
+        sim.sandbox_requests += 1  # the fault is addressed by the request number within this simulation
+        if sim.resolver_fault and sim.resolver_fault.get('nth', 1) == sim.sandbox_requests:
             import errno
             code = getattr(errno, sim.resolver_fault.get('errno', 'ENOSPC'))
             sim.ev('resolver_fault', n=self._n)
